@@ -115,6 +115,11 @@ func (d *Downloader) LoadOnce(ctx context.Context, ni snapshot.NameInfo) error {
 	t1 := time.Now()
 
 	msg, err := snapshot.LoadData(data)
+	if err == nil {
+		// The entries are decoded lazily: check them now, so that a corrupt
+		// snapshot is ignored here instead of failing the merge in the sync loop.
+		err = msg.Validate()
+	}
 	if err != nil {
 		d.l.Debug("Releasing DecompressedSnapshotToken")
 		token.Release()
